@@ -217,7 +217,7 @@ CHECKS = {
             "XML 1.0 character U+0020..U+10FFFF alone, after a letter and before a combining mark; "
             "every integer millisecond 0..3.7e6 in both units, the three floats around every "
             "half-second boundary to 1e5 (1e6) s.",
-            "TAB/CR/LF in attributes outside the quantifier; exact .5 ties accept both.",
+            "TAB/CR/LF compared with the parser-normalised original; exact .5 ties accept both.",
             "DESIGN.md §3 C20"),
 }
 
